@@ -33,7 +33,12 @@ QuadsFull == <<
   << <<CR, CR>>, <<DL, DL>>, <<CR, ST>>, <<ST, DL>> >>,                   \* anchors
   << <<QM, QM>>, <<PL, PL>>, <<QM, LP>>, <<RP, PL>> >>,
   << <<LT, AT>>, <<AT, GT>>, <<LT, HS, HS>>, <<HS, GT>> >>,               \* mixed lengths 2/2/3/2
-  << <<LB>>, <<RB, RB, RB, RB>>, <<LP, LP, LP>>, <<RP>> >>                 \* 1/4/3/1
+  << <<LB>>, <<RB, RB, RB, RB>>, <<LP, LP, LP>>, <<RP>> >>,                \* 1/4/3/1
+  \* pairs of quadruples that cut the same character string differently (a process-wide cache keyed carelessly would confuse them)
+  << <<LP>>, <<RP, RP>>, <<LT>>, <<GT>> >>,
+  << <<LP, RP>>, <<RP>>, <<LT>>, <<GT>> >>,
+  << <<DL, DL>>, <<HS, HS>>, <<AT>>, <<TD>> >>,
+  << <<DL, DL, HS>>, <<HS>>, <<AT>>, <<TD>> >>
 >>
 NonPrefixing(q) == \A i, j \in 1..4 : i # j => ~IsPrefixOf(q[i], q[j])
 Quads == SelectSeq(QuadsFull, NonPrefixing)
